@@ -2957,6 +2957,11 @@ class ContractionTree:
         """
         if reset:
             self.reset_contraction_indices()
+        else:
+            # keep the current orders, but not what has been derived from them
+            for node in self.children:
+                for k in ("einsum_eq", "tensordot_axes", "tensordot_perm"):
+                    self.info[node].pop(k, None)
 
         if priority == "flops":
             nodes = sorted(
